@@ -378,15 +378,16 @@ Qed.
 Lemma optimize_inv fuel g root g' D0 : live_inv g D0 -> ~ D0 root -> is_dec g root = true ->
   optimize fuel g root = Ok g' ->
   exists D, live_inv g' D /\ ~ D root /\ paths_in g g' /\
-            (forall x, is_dec g' x = is_dec g x) /\ (forall x, is_dec g x = false -> kind_of g' x = kind_of g x).
+            (forall x, is_dec g' x = is_dec g x) /\ (forall x, is_dec g x = false -> kind_of g' x = kind_of g x) /\
+            sub D0 D.
 Proof.
   intros L0 H0 Dr H. unfold optimize in H. rewrite Dr in H.
   destruct (opt fuel g [] root) as [[g1 vis1]| | |] eqn:E; cbn [bind] in H; try discriminate.
   inversion H; subst g1.
-  destruct (opt_live g fuel g [] root g' vis1 D0 E L0) as (D & _ & [L Dj _ N _ KD KK P]); auto.
+  destruct (opt_live g fuel g [] root g' vis1 D0 E L0) as (D & SD & [L Dj _ N _ KD KK P]); auto.
   - intros x [].
   - apply paths_in_refl.
-  - exists D. split; [exact L|]. split; [exact (Dj root N)|]. split; [exact P|]. split; [exact KD|exact KK].
+  - exists D. split; [exact L|]. split; [exact (Dj root N)|]. split; [exact P|]. split; [exact KD|]. split; [exact KK|exact SD].
 Qed.
 
 (* The checks of fences.core.debug.check_consistency hold at every node reachable from the root after
@@ -479,7 +480,7 @@ Theorem optimize_is_ref fuel g root g' D0 : live_inv g D0 -> ~ D0 root ->
   optimize fuel g root = Ok g' -> forall x, is_ref g' x = is_ref g x.
 Proof.
   intros L0 H0 H x. destruct (is_dec g root) eqn:Dr.
-  - destruct (optimize_inv fuel g root g' D0 L0 H0 Dr H) as (D & _ & _ & _ & KD & KK).
+  - destruct (optimize_inv fuel g root g' D0 L0 H0 Dr H) as (D & _ & _ & _ & KD & KK & _).
     destruct (is_dec g x) eqn:Dx.
     + pose proof (KD x) as Dx'. rewrite Dx in Dx'. unfold is_ref, is_dec in *.
       destruct (kind_of g x); try discriminate. destruct (kind_of g' x); try discriminate. reflexivity.
